@@ -51,7 +51,7 @@ from contextlib import contextmanager
 from pathlib import Path
 from typing import TYPE_CHECKING, Any
 
-from .errors import CommitError, HookError
+from .errors import CommitError, HookError, NoIndexPresent
 from .objects import Blob, Commit, ObjectID, Tag, Tree
 
 if TYPE_CHECKING:
